@@ -8,7 +8,7 @@ META = {
     "bounds": {
         "quick": "every relative message sequence of length <=4 over {ON, OFF, WAIT, TS, KS} (780 shapes) plus 14 targeted shapes of "
                  "length 5-7; pitch in {0,1} (so pitch == channel number is reachable), channel 0 (all shapes) / {0,1} (targeted shapes and all shapes of length <= 3 with two note messages), "
-                 "waits 1..32, TS numerator in {3,4} over 4, key in 2 keys, probe tick symbolic",
+                 "waits 1..32, note-on velocity 0..127, TS numerator in {3,4} over 4, key in 2 keys, probe tick symbolic",
         "thorough": "every sequence of length <=5 (3905 shapes), channel {0,1} up to length 4, plus the targeted shapes",
     },
     "outside_claim": ["sequences longer than 5 messages apart from the targeted shapes", "more than 2 pitches x 2 channels",
@@ -43,7 +43,7 @@ def build(ctx, shape, chans):
         elif k in ("ON", "OFF"):
             p = ctx.int(f"p{i}", 0, 1)
             c = 0 if chans == 1 else ctx.int(f"c{i}", 0, chans - 1)
-            msgs.append(on(c, p, ctx.int(f"v{i}", 1, 127)) if k == "ON" else off(c, p))
+            msgs.append(on(c, p, ctx.int(f"v{i}", 0, 127)) if k == "ON" else off(c, p))
         elif k == "TS":
             msgs.append(ts(ctx.int(f"num{i}", 3, 4), 4))
         else:
@@ -116,6 +116,26 @@ def q_shape(shape, chans):
                  desc=f"normalise on shape {' '.join(shape)} with {chans} channel(s)")
 
 
+def q_aliased_wait():
+    """the same WAIT message object placed at several positions of one sequence (legal: lists hold references)"""
+    def fn(ctx):
+        w = wait(ctx.int("w", 1, 20))
+        p = ctx.int("p", 0, 1)
+        msgs = [w, on(0, p, 5), w, w, off(0, p), w]
+        total = 4 * w.time
+        seq = rel_sequence(msgs)
+        seq.normalise()
+        er, dr = rel_events(raw_rel(seq))
+        ctx.must("duration_unchanged", eq(dr, total), disc="aliased_wait")
+        ctx.must("alternation", wellformed_alternation(er), disc="aliased_wait")
+        notes, unp = pair_notes(er)
+        ctx.must("sound_unchanged_if_paired", len(notes) == 1 and and_(eq(notes[0].start, w.time), eq(notes[0].end, 3 * w.time))
+                 if len(notes) == 1 else False, disc="aliased_wait")
+        return [obs_rel(raw_rel(seq))]
+    return Query("aliased_wait", fn, ["duration_unchanged", "alternation", "sound_unchanged_if_paired"],
+                 desc="one WAIT object referenced four times")
+
+
 def q_renormalise(kind):
     """normalise, make the same object ill-formed through the relative view, normalise again"""
     def fn(ctx):
@@ -154,6 +174,7 @@ def queries(tier, seed):
             qs.append(q_shape(list(shape), 1))
             if (tier == "thorough" and n <= 4 or n <= 3) and sum(1 for k in shape if k in ("ON", "OFF")) >= 2:
                 qs.append(q_shape(list(shape), 2))
+    qs.append(q_aliased_wait())
     for kind in ("add_relative", "concatenate", "overwrite", "edit"):
         qs.append(q_renormalise(kind))
     for shape in TARGETED:
